@@ -4,6 +4,7 @@ import UberjobModel.Lemmas.PhysChain
 import UberjobModel.Props.C01
 import UberjobModel.Props.C04
 import UberjobModel.Lemmas.ExecFinal
+import UberjobModel.Lemmas.ExecNorm
 /-!
 # C09 — rebuilt stored values are written, then read back, before downstream use
 
@@ -391,6 +392,33 @@ theorem C09_write_input_stable {P : Input} {w0 : Cache.World} {F : Option Int} {
   have I := xinv_reach S h
   obtain ⟨hri, hst⟩ := write_node_reg S.wf (begun_built S h (fun _ hh => hh) (okd_begun h) I hb).2
   exact ⟨write_arg_value S h (fun _ hh => hh) (okd_begun h) I hb hri hst, rawNow_value S h (fun _ hh => hh) (okd_begun h) I hb hri⟩
+
+open Uberjob.Exec in
+/-- **The value clause, for arbitrary normalising stores** (`Model/ExecNorm.lean`: `read()` returns `nm i (what was written)`).
+    In every reachable state of every schedule, a user call `j` that has completed was applied to the normalised
+    from-scratch values of its arguments, and for every argument `u` that is a stored call that value is `nm u (raw result of
+    u)` and is what store `u` holds at that moment: downstream calls consume what `read()` returns after the write, never
+    the value the call of `u` returned. -/
+theorem C09_consumer_gets_readback {P : Input} (nm : Nat → Cache.V → Cache.V) {w0 w0' : Cache.World} {F : Option Int}
+    {c0 : Int} (S : Setup P w0 F c0) (H : Start P nm w0 w0')
+    {cfg : Engine.Cfg} {s : Engine.St} (h : Engine.Reach (engineGraph P) cfg s) {j : Nat}
+    (hj : code (.orig j) ∈ s.okd) (hl : P.lits.contains j = false) (hs : P.regOf j ≠ some true) :
+    let xn := execOrderN P nm (initX w0' c0) s.okd
+    xn.slot (.orig j) = some (.app j ((P.toLPlan.args j).map (fun u => P.N nm (Cache.FS P.toLPlan w0 u)))) ∧
+    ∀ u ∈ P.toLPlan.args j, P.regOf u = some false →
+      xn.w.content u = some (P.N nm (Cache.FS P.toLPlan w0 u)) ∧
+      P.N nm (Cache.FS P.toLPlan w0 u) =
+        nm u (.app u ((P.toLPlan.args u).map (fun q => P.N nm (Cache.FS P.toLPlan w0 q)))) :=
+  consumer_readback S h (xinv_reach S h) (sim_reach S H h) hj hl hs
+
+open Uberjob.Exec in
+/-- ... and, node by node, the run with normalising stores is the `normalise`-image of the plain run (same modified times,
+    every read-back and every rewritten store normalised, every call result the same function of normalised arguments). -/
+theorem C09_norm_simulation {P : Input} (nm : Nat → Cache.V → Cache.V) {w0 w0' : Cache.World} {F : Option Int}
+    {c0 : Int} (S : Setup P w0 F c0) (H : Start P nm w0 w0')
+    {cfg : Engine.Cfg} {s : Engine.St} (h : Engine.Reach (engineGraph P) cfg s) :
+    Sim P nm s.okd (execOrder P (initX w0 c0) s.okd) (execOrderN P nm (initX w0' c0) s.okd) :=
+  sim_reach S H h
 
 /-! ### Non-vacuity -/
 
